@@ -254,16 +254,78 @@ func returnsValue(f *ssa.Function) bool { return f.Signature.Results().Len() == 
 func mergeLiterals(ts []string) []string {
 	var out []string
 	for _, s := range ts {
-		// flatten nested cat(...)
-		if strings.HasPrefix(s, "cat(") && strings.HasSuffix(s, ")") && !strings.Contains(s[4:len(s)-1], "(") {
-			for _, p := range strings.Split(s[4:len(s)-1], ",") {
-				out = append(out, p)
-			}
+		// flatten nested cat(...), drop empty string literals
+		if strings.HasPrefix(s, "cat(") && strings.HasSuffix(s, ")") && balancedTo(s, 3) == len(s)-1 {
+			out = append(out, mergeLiterals(splitTopLevel(s[4:len(s)-1]))...)
+			continue
+		}
+		if s == `""` {
 			continue
 		}
 		out = append(out, s)
 	}
 	return out
+}
+
+// balancedTo: index of the parenthesis closing the one at position open (strings in double quotes skipped); -1 if none.
+func balancedTo(s string, open int) int {
+	depth := 0
+	inStr := false
+	for i := open; i < len(s); i++ {
+		c := s[i]
+		if inStr {
+			if c == '\\' {
+				i++
+			} else if c == '"' {
+				inStr = false
+			}
+			continue
+		}
+		switch c {
+		case '"':
+			inStr = true
+		case '(':
+			depth++
+		case ')':
+			depth--
+			if depth == 0 {
+				return i
+			}
+		}
+	}
+	return -1
+}
+
+// splitTopLevel splits at commas that are outside parentheses and string literals.
+func splitTopLevel(s string) []string {
+	var out []string
+	depth, start := 0, 0
+	inStr := false
+	for i := 0; i < len(s); i++ {
+		c := s[i]
+		if inStr {
+			if c == '\\' {
+				i++
+			} else if c == '"' {
+				inStr = false
+			}
+			continue
+		}
+		switch c {
+		case '"':
+			inStr = true
+		case '(':
+			depth++
+		case ')':
+			depth--
+		case ',':
+			if depth == 0 {
+				out = append(out, s[start:i])
+				start = i + 1
+			}
+		}
+	}
+	return append(out, s[start:])
 }
 
 func (e *caseEval) mapCases(cs []vcase, f func(string) string) []vcase {
